@@ -17,7 +17,7 @@ RULE = ("a case = up to 4 simulated hosts, each consistently good (well-formed V
         "attributes, truncated reply, undecryptable payload, marker-only, a V1-style XML announcement whose TCP port accepts and stays silent / answers XML / answers garbage / closes), good hosts of any appliance type whose reply body names their own, another responder's, no or a foreign address, each sending 1..3 copies of its reply (a good host may answer with a V2-style and a V3-style reply of the same identity, in either order, back to back or 0.3 s apart) from source ports "
         "{6445, 20086, random}; the arrival order of all datagrams is a parameter (every distinct interleaving for <= 6 datagrams, "
         "seeded random orders beyond). Oracle: Discover.discover() returns normally, the reported addresses are exactly the good hosts, "
-        "one device per address (with the default listening window or timeout in {1,2,3,8} s when all replies arrive inside it), and nothing reaches the event loop's exception handler. distinct = (hosts, classes, arrival order); "
+        "one device per address (good hosts may be seconds late; the probe may be addressed to a host name resolving to the first host, then only that host is expected; with the default listening window or timeout in {1,2,3,8} s when all replies arrive inside it), and nothing reaches the event loop's exception handler. distinct = (hosts, classes, arrival order); "
         "non-trivial = at least two datagrams or at least one bad host")
 ASSUMPTIONS = ["each host is consistently good or consistently bad within a run (the statement does not say which reply wins otherwise)",
                "V1-style XML replies that carry a port attribute trigger a TCP probe of that host: such a host is unusable and must be omitted like the other bad classes as long as the TCP connection can be made; a refused or never-completing TCP connect is outside the statement's reply classes (DESIGN section 4, observation 3) and is not generated"]
@@ -136,6 +136,9 @@ def _vary(rng, hosts):
         if h["good"] and rng.random() < 0.5:
             h["body_ip"] = rng.choice([None, "other", "other", "zero", "foreign"])
             h["type"] = rng.choice(["ac", "AC", "a1", "fc", "00", "e2", "ff"])
+        if h["good"] and rng.random() < 0.25:
+            # a host that is slow to answer: its first reply comes seconds after everybody else's (still inside the window)
+            h["delay"] = rng.choice([1.6, 2.8, 4.4])
     return hosts
 
 
@@ -144,6 +147,8 @@ def generate(ctx, rng):
         _vary(rng, case["hosts"])
         # the optional listening window (seconds); used only if every scripted reply arrives well inside it
         case["timeout"] = rng.choice([None, None, 1, 2, 3, 8])
+        # the probe is addressed to a host name (resolving to the first host) instead of the broadcast address
+        case["named"] = rng.random() < 0.12
         yield key, case
 
 
@@ -225,19 +230,26 @@ def run_case(ctx, case):
             payload = replies[(i, "alt")] if (k % 2 or hosts[i].get("dual") == "always") else replies[i]
         seen_first.add(i)
         gap = case.get("gap", 0.01)
-        per_host[i].append((0.05 + gap * k, sport, payload))
+        per_host[i].append((0.05 + gap * k + hosts[i].get("delay", 0.0), sport, payload))
+    named = bool(case.get("named"))
     for i, h in enumerate(hosts):
-        sims.append(SimHost(net, f"10.18.0.{i + 1}", r.choice([6445, 20086]), per_host[i]))
+        sims.append(SimHost(net, f"10.18.0.{i + 1}", r.choice([6445, 20086]), per_host[i], names=(["hvac-unit.lan"] if named and i == 0 else ())))
 
     last = max([d for lst in per_host.values() for d, _, _ in lst] or [0.0])
     tmo = case.get("timeout") if (case.get("timeout") and case["timeout"] > last + 0.25) else None
+    if tmo is None and last > 4.7:
+        tmo = int(last) + 2          # the default 5 s window would (legitimately) miss the last scripted reply
+
+    kw = {"auto_connect": False}
+    if tmo is not None:
+        kw["timeout"] = tmo
+    if named:
+        kw["target"] = "hvac-unit.lan"
 
     async def go(loop):
-        if tmo is not None:
-            return await Discover.discover(auto_connect=False, timeout=tmo)
-        return await Discover.discover(auto_connect=False)
+        return await Discover.discover(**kw)
 
-    key = ("c18", tmo, tuple((h["good"], h.get("klass"), h["version"], h["copies"], h.get("dual"), h.get("body_ip"), h.get("type")) for h in hosts), tuple(case["order"]), case.get("gap"))
+    key = ("c18", tmo, named, tuple(h.get("delay") for h in hosts), tuple((h["good"], h.get("klass"), h["version"], h["copies"], h.get("dual"), h.get("body_ip"), h.get("type")) for h in hosts), tuple(case["order"]), case.get("gap"))
     nontrivial = len(case["order"]) >= 2 or any(not h["good"] for h in hosts)
     unhandled = []
     try:
@@ -250,7 +262,7 @@ def run_case(ctx, case):
         return
     ctx.count(key, nontrivial=nontrivial, kind=f"discover-{len(hosts)}hosts",
               sample={"hosts": hosts, "order": case["order"]} if len(hosts) >= 3 else None)
-    good_ips = {f"10.18.0.{i + 1}" for i, h in enumerate(hosts) if h["good"]}
+    good_ips = {f"10.18.0.{i + 1}" for i, h in enumerate(hosts) if h["good"] and (not named or i == 0)}
     if any(d is None for d in devs):
         ctx.violation("none-in-result", "discover() returned a None entry for an omitted host", case)
     got_ips = [d.ip for d in devs if d is not None]
